@@ -90,8 +90,8 @@ pub fn inventory(n: usize) -> Vec<SegBits> {
     ["p", "t", "a", "i", "n", "s"][..n].iter().map(|t| seg(t)).collect()
 }
 
-struct Acc { evals: u64, fired: u64, notfired: u64, skipped: u64, viols: Vec<Viol>, outs: std::collections::BTreeSet<u64>, maxticks: u64 }
-fn acc() -> Acc { Acc { evals: 0, fired: 0, notfired: 0, skipped: 0, viols: vec![], outs: Default::default(), maxticks: 0 } }
+struct Acc { evals: u64, fired: u64, notfired: u64, skipped: u64, long: u64, viols: Vec<Viol>, outs: std::collections::BTreeSet<u64>, maxticks: u64 }
+fn acc() -> Acc { Acc { evals: 0, fired: 0, notfired: 0, skipped: 0, long: 0, viols: vec![], outs: Default::default(), maxticks: 0 } }
 
 fn eval_rule(rule: &BasicRule, words: &[CW], a: &mut Acc) {
     let text = rule.text();
@@ -101,7 +101,8 @@ fn eval_rule(rule: &BasicRule, words: &[CW], a: &mut Acc) {
         o => { a.viols.push(Viol { key: format!("compile-crash|{}", text), desc: o.crash_desc().unwrap(), case: json!({"rule": text}) }); return; }
     };
     for w in words {
-        let want = match apply_basic(rule, w) { RefOut::SkipAdjacentEqual => { a.skipped += 1; continue; } RefOut::Word(c, f) => (c, f) };
+        let long = has_adjacent_equal(w);
+        let want = match if long { apply_basic_runs(rule, w) } else { apply_basic(rule, w) } { RefOut::SkipAdjacentEqual => { a.skipped += 1; continue; } RefOut::Word(c, f) => { if long { a.long += 1; } (c, f) } };
         a.evals += 1;
         let budget = budget_for(12, text.chars().count());
         let got = guarded(budget, || { let r = av::apply_group(&compiled, 0, word_of(w)).map(|x| cw_of(&x)); (r, av::ticks()) });
@@ -125,9 +126,9 @@ fn run_box(r: &mut Report, name: &str, rules: Vec<BasicRule>, words: &[CW]) {
     let mut tot = acc();
     let t0 = std::time::Instant::now();
     par_fold(rules.len(), 16, acc, |i, a| eval_rule(&rules[i], words, a), |a| {
-        tot.evals += a.evals; tot.fired += a.fired; tot.notfired += a.notfired; tot.skipped += a.skipped; tot.viols.extend(a.viols); tot.outs.extend(a.outs); tot.maxticks = tot.maxticks.max(a.maxticks);
+        tot.evals += a.evals; tot.fired += a.fired; tot.notfired += a.notfired; tot.skipped += a.skipped; tot.long += a.long; tot.viols.extend(a.viols); tot.outs.extend(a.outs); tot.maxticks = tot.maxticks.max(a.maxticks);
     });
-    r.boxes.push(json!({"box": name, "rules": rules.len(), "words": words.len(), "evaluated": tot.evals, "skipped_adjacent_equal": tot.skipped, "fired": tot.fired, "not_fired": tot.notfired, "distinct_outputs": tot.outs.len(), "max_ticks_permille_of_budget": tot.maxticks, "wall_s": t0.elapsed().as_secs_f64()}));
+    r.boxes.push(json!({"box": name, "rules": rules.len(), "words": words.len(), "evaluated": tot.evals, "skipped_ambiguous": tot.skipped, "evaluated_with_long_segments": tot.long, "fired": tot.fired, "not_fired": tot.notfired, "distinct_outputs": tot.outs.len(), "max_ticks_permille_of_budget": tot.maxticks, "wall_s": t0.elapsed().as_secs_f64()}));
     r.evaluations += tot.evals; r.transitions += tot.evals; r.validated += tot.evals; r.nontrivial += tot.fired;
     r.skip("adjacent equal segments inside a syllable (input or intermediate)", tot.skipped);
     r.states.extend(tot.outs);
